@@ -85,10 +85,13 @@ def cross_validate(c, cfgs, drivers, label="C03"):
             recs = [evs[0] for evs in units]
 
             def mutate(e):
-                for f in ("after", "out", "y"):
+                for f in ("after", "out"):
                     if f in e and e[f]:
                         e[f][0] ^= 2
                         return
+                for f in ("y", "z"):          # threefish events: ciphertext (enc mode) and decrypted block (inverse mode)
+                    if f in e and e[f]:
+                        e[f][0] ^= 2
             vlib.validate_stateless(c, module, recs, lambda e: {"driver": dname, "cfg": e.get("cfg"), "res": e.get("res", "").split(":")[0],
                                                                  "ty": e.get("ty"), "op": e.get("op"), "alg": e.get("alg"), "variant": e.get("variant")},
                                     mutate, "%s %s" % (label, dname), timeout=6000, workers=12, env=denv)
